@@ -1198,7 +1198,15 @@ impl<T: Config> P2PSession<T> {
                 for remote in self.player_reg.remotes.values_mut() {
                     let mut checked_frames = Vec::new();
 
-                    for (&remote_frame, &remote_checksum) in &remote.pending_checksums {
+                    // oldest report first: the order of a hash map's entries must not decide the order
+                    // in which the user is told about several mismatching frames
+                    let mut pending: Vec<(Frame, u128)> = remote
+                        .pending_checksums
+                        .iter()
+                        .map(|(&frame, &checksum)| (frame, checksum))
+                        .collect();
+                    pending.sort_unstable_by_key(|&(frame, _)| frame);
+                    for (remote_frame, remote_checksum) in pending {
                         if remote_frame >= self.sync_layer.last_confirmed_frame() {
                             // we're still waiting for inputs for this frame
                             continue;
